@@ -62,7 +62,15 @@ pub(crate) type Store = ShardedMap<u64, NdValidator, HS, HS>;
 /// every entry with a TTL is filed (with its conflict) under storage_bucket(expiration), nothing
 /// else is filed except the optional `stale` listing (a key that is not in the store).
 pub(crate) fn store_from(a: Option<GEnt>, b: Option<GEnt>, stale: Option<(i64, u64, u64)>, v: NdValidator) -> Store {
+    store_from_opt(a, b, stale, v, true)
+}
+
+/// `file`: whether entries with a TTL are filed in the expiry index (harnesses that neither
+/// touch nor assert the index leave it empty to keep the formula small)
+pub(crate) fn store_from_opt(a: Option<GEnt>, b: Option<GEnt>, stale: Option<(i64, u64, u64)>, v: NdValidator, file: bool) -> Store {
     let mut g: EmGhost = [None, None, None];
+    let (a0, b0) = (a, b);
+    let (a, b) = if file { (a, b) } else { (None, None) };
     if let Some(e) = a {
         if !e.exp.is_zero() {
             g[0] = Some((th::bucket_of(e.exp), e.key, e.conflict));
@@ -76,7 +84,7 @@ pub(crate) fn store_from(a: Option<GEnt>, b: Option<GEnt>, stale: Option<(i64, u
     g[2] = stale;
     let em = em_from(&g);
     let s = ShardedMap::with_validator_and_hasher(em, v, HS::default());
-    for e in [a, b] {
+    for e in [a0, b0] {
         if let Some(e) = e {
             s.shards[(e.key as usize) % NUM_OF_SHARDS].write().insert(
                 e.key,
@@ -152,7 +160,7 @@ fn store_step(op: u8, ttl: u8, forced: Option<bool>, em: bool) {
     if let Some(y) = nb {
         nd::assume(y.key != k);
     }
-    let s = store_from(subj, nb, None, NdValidator::new(forced));
+    let s = store_from_opt(subj, nb, None, NdValidator::new(forced), em);
     let c = nd::any_u64();
     let v = nd::any_u64();
     let d = if ttl == 0 { Duration::ZERO } else { any_duration(window) };
@@ -300,5 +308,149 @@ store_harness!(c04_em_store_remove, OP_REMOVE, 2, Some(true), true);
 // C03: visibility by time
 store_harness!(c03_store_lookup_ttl, OP_GETMUT, 2, None, false);
 // C09: vetoed writes
-store_harness!(c09_store_veto_update, OP_UPDATE, 2, Some(false), true);
-store_harness!(c09_store_veto_insert, OP_INSERT, 2, Some(false), true);
+store_harness!(c09_store_veto_update, OP_UPDATE, 2, Some(false), false);
+store_harness!(c09_store_veto_update_em, OP_UPDATE, 2, Some(false), true);
+store_harness!(c09_store_veto_insert, OP_INSERT, 2, Some(false), false);
+store_harness!(c09_store_veto_insert_em, OP_INSERT, 2, Some(false), true);
+
+// ------------------------------------------------------------------------------------------------
+// C04 / C05: the sweep itself (`ShardedMap::try_cleanup`) from an arbitrary state, including a
+// STALE listing (a key filed under a bucket although its current entry has another deadline or
+// no TTL at all - left behind by clear(), which does not empty the expiry index)
+// ------------------------------------------------------------------------------------------------
+#[cfg(feature = "sync")]
+fn store_cleanup() {
+    use crate::policy::verif_harness::psync::mk_policy;
+    use crate::policy::verif_harness::{any_tinylfu, slfu_from, COST_MAX};
+    use crate::verif_env::mrec;
+    let now = clock::set_nd(1000, th::SECS_MAX);
+    let e = any_ent(now, 2, 4);
+    let k = e.key;
+    // a listing of k under an arbitrary bucket (equal to its real bucket or stale)
+    let stale_bucket = nd::any_i64_in(now.as_secs() as i64 - 6, now.as_secs() as i64 + 6);
+    let listed_properly = !e.exp.is_zero() && nd::any_bool();
+    let stale = if nd::any_bool() { Some((stale_bucket, k, e.conflict)) } else { None };
+    let s = store_from(if listed_properly { Some(e) } else { None }, None, stale, NdValidator::new(Some(true)));
+    if !listed_properly {
+        // resident, but (apart from the optional stale listing) not filed
+        s.shards[(k as usize) % NUM_OF_SHARDS].write().insert(
+            k,
+            StoreItem { key: k, conflict: e.conflict, value: SharedValue::new(e.val), expiration: e.exp },
+        );
+    }
+    let charge = nd::any_i64_in(0, COST_MAX);
+    let (p, _w) = mk_policy(any_tinylfu(1, 6), slfu_from([Some((k, charge)), None, None], COST_MAX), Arc::new(mrec::make(false)));
+    let p = Arc::new(p);
+    let t = clock::advance_nd(8);
+    let out = s.try_cleanup(p.clone());
+    vassert!(out.is_ok(), "cleanup does not fail");
+    let out = out.unwrap();
+    let removed = raw(&s, k).is_none();
+    let elapsed = !e.exp.is_zero() && t >= deadline(&e.exp);
+    vassert!(!removed || elapsed, "cleanup never removes an entry whose TTL has not elapsed, and never one without TTL, whatever is filed in the expiry index");
+    vassert!(removed == (out.len() == 1), "every removed entry is reported exactly once");
+    if removed {
+        vassert!(out[0].val == Some(e.val) && out[0].index == k && out[0].cost == charge, "a reclaimed entry is reported with its value and charged cost");
+        vassert!(!p.contains(&k), "a reclaimed entry is no longer charged");
+    } else {
+        vassert!(p.contains(&k), "an entry that stays resident stays charged");
+    }
+    if listed_properly && t >= deadline(&e.exp) + Duration::from_secs(1) {
+        vassert!(removed, "a filed entry whose TTL elapsed more than one bucket width ago is reclaimed by the next pass");
+    }
+    vcover!(removed, "entry reclaimed");
+    vcover!(!removed && stale.is_some() && e.exp.is_zero() && stale_bucket <= t.as_secs() as i64, "stale listing of an entry without TTL is due");
+    vcover!(!removed && elapsed, "elapsed but its bucket is not due yet");
+    std::mem::forget(out);
+    std::mem::forget(s);
+}
+
+#[cfg(feature = "sync")]
+harness! {
+    [kani::unwind(5),
+     kani::stub(std::sync::Arc::drop_slow, stubs::arc_drop_slow),
+     kani::stub(parking_lot::RawMutex::lock_slow, stubs::mutex_lock_slow),
+     kani::stub(parking_lot::RawMutex::unlock_slow, stubs::mutex_unlock_slow),
+     kani::stub(parking_lot::RawRwLock::lock_shared_slow, stubs::rw_lock_shared_slow),
+     kani::stub(parking_lot::RawRwLock::lock_exclusive_slow, stubs::rw_lock_exclusive_slow),
+     kani::stub(parking_lot::RawRwLock::unlock_shared_slow, stubs::rw_unlock_shared_slow),
+     kani::stub(parking_lot::RawRwLock::unlock_exclusive_slow, stubs::rw_unlock_exclusive_slow),
+     kani::stub(crate::metrics::Metrics::add, crate::verif_env::mrec::add),
+     kani::stub(crate::metrics::Metrics::is_op, crate::verif_env::mrec::is_op)]
+    fn c05_store_cleanup() {
+        store_cleanup();
+    }
+}
+
+// ------------------------------------------------------------------------------------------------
+// Recorder stubs for `ShardedMap::try_insert / try_remove` (Kani only), used by the "wiring"
+// harnesses of the processor's New arm: the store operations themselves are decided by the store
+// step lemmas above; there the question is only WHICH store operations the processor issues for
+// every outcome of the policy.
+// ------------------------------------------------------------------------------------------------
+#[cfg(kani)]
+pub(crate) mod storerec {
+    use super::*;
+    pub static mut INSERTS: usize = 0;
+    pub static mut INS_KEY: u64 = 0;
+    pub static mut INS_CONFLICT: u64 = 0;
+    pub static mut INS_VAL: u64 = 0;
+    pub static mut INS_TTL_SECS: u64 = 0;
+    pub static mut REMOVES: usize = 0;
+    pub static mut REM_KEYS: [u64; 4] = [0; 4];
+    pub static mut REM_CONFLICTS: [u64; 4] = [0; 4];
+    pub static mut REM_FOUND: [bool; 4] = [false; 4];
+    pub static mut REM_VALS: [u64; 4] = [0; 4];
+
+    pub fn reset() {
+        unsafe {
+            INSERTS = 0;
+            REMOVES = 0;
+        }
+    }
+
+    pub fn try_insert<V, U, SS, ES>(_s: &ShardedMap<V, U, SS, ES>, key: u64, val: V, conflict: u64, expiration: Time) -> Result<(), CacheError>
+    where
+        V: Send + Sync + 'static,
+        U: UpdateValidator<Value = V>,
+        SS: BuildHasher + Clone + 'static,
+        ES: BuildHasher + Clone + 'static,
+    {
+        unsafe {
+            INSERTS += 1;
+            INS_KEY = key;
+            INS_CONFLICT = conflict;
+            if std::mem::size_of::<V>() == 8 {
+                INS_VAL = std::mem::transmute_copy::<V, u64>(&val);
+            }
+            INS_TTL_SECS = th::ttl_of(&expiration).as_secs();
+        }
+        std::mem::forget(val);
+        Ok(())
+    }
+
+    /// answers found / not found as the solver chooses; a found entry carries value tag 0 or 1
+    pub fn try_remove<V, U, SS, ES>(_s: &ShardedMap<V, U, SS, ES>, key: &u64, conflict: u64) -> Result<Option<StoreItem<V>>, CacheError>
+    where
+        V: Send + Sync + 'static,
+        U: UpdateValidator<Value = V>,
+        SS: BuildHasher + Clone + 'static,
+        ES: BuildHasher + Clone + 'static,
+    {
+        unsafe {
+            let i = if REMOVES < 4 { REMOVES } else { 3 };
+            REM_KEYS[i] = *key;
+            REM_CONFLICTS[i] = conflict;
+            REMOVES += 1;
+            let found = nd::any_bool() && std::mem::size_of::<V>() == 8;
+            REM_FOUND[i] = found;
+            if !found {
+                return Ok(None);
+            }
+            let tag: u64 = if nd::any_bool() { 0 } else { 1 };
+            REM_VALS[i] = tag;
+            let v: V = std::mem::transmute_copy::<u64, V>(&tag);
+            Ok(Some(StoreItem { key: *key, conflict: nd::any_u64(), value: SharedValue::new(v), expiration: th::time_at(clock::get(), Duration::ZERO) }))
+        }
+    }
+}
